@@ -109,7 +109,7 @@ def run_cls(case, bus, ex):
     taps.install_etdrk_ctor_taps(ex, bus)
     rng = env.rng_for(*case["rs"])
     name, D, order, x64 = case["cls"], case["D"], case["order"], case["x64"]
-    N = {1: 16, 2: 8, 3: 6}[D]
+    N = zoo.nontrivial_N(name, {1: 16, 2: 8, 3: 6}[D])
     it = zoo.make_intent(rng, name, D, N, variant=int(rng.integers(0, zoo.SPECS[name]["nvar"])), order=order)
     U = make_states(rng, it, 2)
     sess = "x64" if x64 else "f32"
